@@ -477,6 +477,13 @@ def inline_rule(cfg, R):
     ing = ev.module('tools/zonedb/ingenerator.py')
     zs = py.load(cfg, 'tools/zonedb/zone_specifier.py')
     db = tagged_db('extended')
+    # one policy gets a name that normalize_name() rewrites (the TZ database has 'C-Eur', 'E-EurAsia', ...), so that "which of the
+    # two spellings ends up in the table" is visible
+    db['rules_map'] = {('Pol-B' if k == 'PolB' else k): v for k, v in db['rules_map'].items()}
+    for es_ in db['zones_map'].values():
+        for e_ in es_:
+            if e_['rules'] == 'PolB':
+                e_['rules'] = 'Pol-B'
     init = ing.fn('InlineGenerator.__init__')
     gm = ing.fn('InlineGenerator.generate_maps')
     kwargs = {}
@@ -534,6 +541,43 @@ def inline_rule(cfg, R):
                 if k == 'zonePolicy':
                     a_ = ('ZONE_POLICY_' + normalize_name(a_['name'])) if isinstance(a_, dict) and 'name' in a_ else a_
                     b_ = b_.name if isinstance(b_, Ref) else b_
+                if a_ != b_:
+                    R.violation('R3', c, gm.loc, '%s: the in-memory table has %s = %r, the generated file %r' % (w, k, a_, b_))
+                    break
+        # the record that owns the list: every other key of its TypedDict (today: 'name') equal on both sides
+        oname = 'ZonePolicy' if what == 'rule' else 'ZoneInfo'
+        okeys = ing.typed_dict_keys(oname)
+        owners = []
+        if what == 'rule':
+            for pname in db['rules_map']:
+                norm = normalize_name(pname)
+                owners.append(('policy %s' % pname, zpols.get(norm), P.policies.get('ZONE_POLICY_' + norm), P.policy_map.get(norm), 'ZONE_POLICY_' + norm))
+        else:
+            for zname in db['zones_map']:
+                norm = normalize_name(zname)
+                owners.append(('zone %s' % zname, zinfos.get(zname), P.infos.get('ZONE_INFO_' + norm), P.info_map.get(zname), 'ZONE_INFO_' + norm))
+        c1 = 'ingenerator~pygenerator:%s:keys' % oname
+        R.instance('R3', c1, gm.loc)
+        for w, m_, f_, ref_, sym in owners:
+            if not isinstance(m_, dict) or f_ is None:
+                R.violation('R3', c1, gm.loc, '%s: %s' % (w, 'missing from the in-memory map' if not isinstance(m_, dict) else 'missing from the generated file'))
+                break
+            if not (isinstance(ref_, Ref) and ref_.name == sym):
+                R.violation('R3', c1, gm.loc, '%s: the map of the generated file has %r under the key the in-memory map uses, expected %s' % (w, ref_, sym))
+                break
+            fk = set(f_.cells if hasattr(f_, 'cells') else f_)
+            if set(m_) != set(okeys) or fk != set(okeys):
+                R.violation('R3', c1, gm.loc, '%s: InlineGenerator builds keys %s, the generated file has %s, TypedDict %s declares %s' % (w, sorted(m_), sorted(fk), oname, sorted(okeys)))
+                break
+        for k in okeys:
+            if k in ('rules', 'eras'):
+                continue
+            c = 'ingenerator~pygenerator:%s.%s' % (oname, k)
+            R.instance('R3', c, gm.loc)
+            for w, m_, f_, ref_, sym in owners:
+                if not isinstance(m_, dict) or f_ is None:
+                    continue
+                a_, b_ = m_.get(k), (f_.get(k) if hasattr(f_, 'get') else None)
                 if a_ != b_:
                     R.violation('R3', c, gm.loc, '%s: the in-memory table has %s = %r, the generated file %r' % (w, k, a_, b_))
                     break
@@ -661,6 +705,9 @@ SELFTEST = [
     dict(id='letters-sorted-with-key-silent', file='tools/zonedb/argenerator.py', find='            for letter in sorted(letters):', replace='            for letter in sorted(letters, key=str):', expect='silent'),
     dict(id='placeholder-without-argument', file='tools/zonedb/pygenerator.py', find='            numEras=num_eras,\n', replace='', rule='R2'),
     dict(id='inline-uses-untruncated-field', file='tools/zonedb/ingenerator.py', find="                    'atSeconds': rule['atSecondsTruncated'],", replace="                    'atSeconds': rule['atSeconds'],", rule='R3'),
+    dict(id='inline-policy-carries-raw-name', file='tools/zonedb/ingenerator.py', find="                'name': normalized_name,", replace="                'name': name,", rule='R3'),
+    dict(id='inline-info-named-by-symbol', file='tools/zonedb/ingenerator.py', find="{'name': zone_name, 'eras': zone_eras}", replace="{'name': normalize_name(zone_name), 'eras': zone_eras}", rule='R3'),
+    dict(id='inline-policy-name-through-local-silent', file='tools/zonedb/ingenerator.py', find="                'name': normalized_name,", replace="                'name': normalize_name(name),", expect='silent'),
     dict(id='file-generator-crosses-fields', file='tools/zonedb/pygenerator.py', find="            untilMonth=era['untilMonth'],", replace="            untilMonth=era['untilDay'],", rule='R3'),
     dict(id='counter-of-other-collection', file='tools/zonedb/argenerator.py', find='            numLinks=len(self.links_map),', replace='            numLinks=len(self.zones_map),', rule='R4'),
     dict(id='counter-of-unrendered-collection', file='tools/zonedb/argenerator.py', find='            numRemovedLinks=len(self.removed_links),', replace='            numRemovedLinks=len(self.removed_policies),', rule='R4'),
